@@ -22,6 +22,8 @@ ENV = dict(os.environ, CARGO_NET_OFFLINE="true")
 
 def build(targets=None):
     cmd = ["cargo", "+nightly", "fuzz", "build", "-s", "none"]
+    if os.environ.get("VERIF_REPO_OVERRIDE"):
+        cmd = ["cargo", "+nightly", "--config", 'paths=["%s"]' % os.environ["VERIF_REPO_OVERRIDE"], "fuzz", "build", "-s", "none"]
     ok = True
     for t in (targets or [None]):
         r = subprocess.run(cmd + ([t] if t else []), cwd=HARNESS, env=ENV, stdout=subprocess.PIPE, stderr=subprocess.STDOUT, text=True)
